@@ -13,5 +13,6 @@ func init() {
 	facts.Tables = append(facts.Tables, facts.Table{File: "Matrix.lean", Gen: func(repo string) (string, error) {
 		return facts.MatrixLean(filepath.Join(repo, "matrix", "matrix.go"))
 	}})
+	facts.Tables = append(facts.Tables, facts.Table{File: "C17Angles.lean", Gen: c17.AnglesLean})
 	runners["C17"] = func(c *Ctx) error { return c17.Run(c.Tier, c.Seed, c.ModelPath, c.Repo, c.R) }
 }
